@@ -46,7 +46,7 @@ def build(par, mix, rng):
         nodes = [F.ValLM("n%d" % i, i % 2) for i in range(n)]
     elif mix == "LMSUB":
         # slotted base class first (root), then subclasses that add slots of their own
-        nodes = [F.LM("n%d" % i) if i % 3 == 0 else F.LM2("n%d" % i, extra=("x", i), more=[i]) for i in range(n)]
+        nodes = [F.LM("n%d" % i) if i % 3 == 0 else (F.LM2 if i % 3 == 1 else F.LM3)("n%d" % i, extra=("x", i), more=[i]) for i in range(n)]
     elif mix == "FALSYLM":
         nodes = [F.FalsyLM("n%d" % i, i % 2) for i in range(n)]
     elif mix == "HNode":
@@ -268,7 +268,7 @@ def hows_for(mix):
 
 def run(ctx):
     T = ctx.tier == "thorough"
-    nmax = 7 if T else 6
+    nmax = 8 if T else 6
     idx = 0
     for n in range(1, nmax + 1):
         for par in gen.ordered_trees(n):
@@ -283,7 +283,7 @@ def run(ctx):
                     hows = [hows[(idx + mi) % len(hows)], "deepcopy", hows[-2]]
                 check_tree(ctx, par, mix, {"par": list(par), "mix": mix}, range(n), hows, idx)
         ctx.exhaustive.append("all ordered trees with %d nodes x every entry node x class mixes x protocols + deepcopy%s" % (n, "" if n < 5 else " (rotating subset of protocols/mixes)"))
-    nrand = (5000 if T else 320) // ctx.nshards + 1
+    nrand = (30000 if T else 320) // ctx.nshards + 1
     for r in range(nrand):
         rng = ctx.rng("rand", r)
         n = rng.randint(7, 40)
@@ -303,7 +303,7 @@ def histories(ctx):
     from .. import trees as TR
 
     T = ctx.tier == "thorough"
-    nh = (2000 if T else 200) // ctx.nshards + 1
+    nh = (20000 if T else 200) // ctx.nshards + 1
     for h in range(nh):
         rng = ctx.rng("hist", h)
         fam = ("Node", "NM", "LM", "VALNM", "FALSY", "MIX")[h % 6]
